@@ -2,10 +2,35 @@ import Isotp.PyAgree.EvalLemmas
 import Isotp.PyAgree.MiscLemmas
 import Isotp.PyAgree.MiscTimer
 import Isotp.PyAgree.MiscFc
+import Isotp.PyAgree.AddressFns
 import Isotp.Process
 /-!
   Source agreement for the small transmit-side helpers and accessors of `TransportLayerLogic`, for `RateLimiter` and for
-  `FiniteByteGenerator` (`isotp/protocol.py`, `isotp/tools.py`), FOR ALL STATES.
+  `FiniteByteGenerator` (`isotp/protocol.py`, `isotp/tools.py`), FOR ALL STATES and for EVERY environment that shows the model object
+  (`Has env (txAttrs s)`: each attribute the method touches has the value the model state gives it; nothing is assumed of the
+  other names, and every theorem that writes comes with its frame condition).
+
+  | source (`Src.`)                              | model                                   | theorem |
+  |----------------------------------------------|-----------------------------------------|---------|
+  | `TransportLayerLogic_p_stop_sending`         | `State.stopSending s ok`                | `p_stop_sending_agrees` (`p_stop_sending_run`) |
+  | `TransportLayerLogic_p_start_rx_fc_timer`    | `State.startRxFcTimer`                  | `p_start_rx_fc_timer_agrees` (relative to the float conversion) |
+  | `TransportLayerLogic_available`              | `State.available`                       | `available_agrees` |
+  | `TransportLayerLogic_transmitting`           | `State.transmitting`                    | `transmitting_agrees` |
+  | `TransportLayerLogic_is_tx_throttled`        | `State.isTxThrottled`                   | `is_tx_throttled_agrees` |
+  | `FiniteByteGenerator_total_length`           | `Req.size`                              | `fbg_total_length_agrees` |
+  | `FiniteByteGenerator_remaining_size`         | `Req.remaining`                         | `fbg_remaining_size_agrees` (needs `consumed ≤ size`: `fbg_remaining_size_needs_le`), `fbg_remaining_size_int` |
+  | `FiniteByteGenerator_depleted`               | `Req.depleted`                          | `fbg_depleted_agrees` |
+  | `TransportLayerLogic_stop_sending`           | `State.stopSending s false`             | `stop_sending_agrees`, `stop_sending_calls` |
+  | `TransportLayerLogic_stop_receiving`         | `State.stopReceiving`                   | `stop_receiving_agrees`, `stop_receiving_calls` |
+  | `RateLimiter_allowed_bytes`                  | `Limiter.allowedBytes`                  | `ratelimiter_allowed_bytes_agrees` (integer-valued `window_bit_max`) |
+  | `RateLimiter_reset`                          | `Limiter.reset`                         | `ratelimiter_reset_agrees` (integer factors), `ratelimiter_reset_run` (all values) |
+  | `RateLimiter_enable` / `RateLimiter_disable` | the `enabled` flag (+ `reset`)          | `ratelimiter_enable_agrees`, `ratelimiter_disable_agrees` |
+  | `TransportLayerLogic_p_make_flow_control`    | `makeFlowControl`                       | `p_make_flow_control_agrees` (`_general`) |
+  | `TransportLayerLogic_p_trigger_error`        | `State.error`                           | `p_trigger_error_agrees` (`_general`: all three guards) |
+  | `TransportLayerLogic_SendRequest_complete`   | (the `.done` event)                     | `sendrequest_complete_calls` |
+
+  Outside the subset (stated as theorems): float operands in `RateLimiter` (`ratelimiter_allowed_bytes_float_outside_subset`,
+  `ratelimiter_reset_float_outside_subset`).  Generic machinery is in `namespace TxH`.
 -/
 namespace Isotp.PyAgree
 open Isotp Isotp.Py
@@ -14,6 +39,27 @@ open Isotp Isotp.Py
 
 /-- `env` has every binding of `bs` -/
 def Has (env : Env) (bs : List (String × PV)) : Prop := ∀ kv ∈ bs, env kv.1 = some kv.2
+
+/-- every list of bindings with distinct names is shown by the environment built from it (non-vacuity of the `Has` hypotheses) -/
+theorem has_envOf : ∀ (bs : List (String × PV)), (bs.map (·.1)).Nodup → Has (envOf bs) bs
+  | [], _ => by intro kv h; cases h
+  | b :: bs, hn => by
+    have hn' := List.nodup_cons.mp hn
+    intro kv h
+    rcases List.mem_cons.mp h with rfl | h
+    · simp [envOf, List.find?]
+    · have hne : (b.1 == kv.1) = false := by
+        rw [beq_eq_false_iff_ne]
+        intro e
+        exact hn'.1 (by rw [show (fun x : String × PV => x.1) b = kv.1 from e]; exact List.mem_map_of_mem h)
+      have ih := has_envOf bs hn'.2 kv h
+      simp only [envOf, List.find?, hne] at ih ⊢
+      exact ih
+
+theorem Has.append_left {env : Env} {as bs : List (String × PV)} (h : Has env (as ++ bs)) : Has env as :=
+  fun kv hkv => h kv (List.mem_append_left _ hkv)
+theorem Has.append_right {env : Env} {as bs : List (String × PV)} (h : Has env (as ++ bs)) : Has env bs :=
+  fun kv hkv => h kv (List.mem_append_right _ hkv)
 
 namespace TxH
 
@@ -297,7 +343,6 @@ theorem p_stop_sending_run (s : State) (ok : Bool) (env : Env) (hE : Has env (tx
 theorem stopEnv_has (s : State) (ok : Bool) (env : Env) (hE : Has env (txAttrs s)) :
     Has (stopEnv s ok env) (txAttrs (s.stopSending ok)) := by
   obtain ⟨h1, h2, h3, h4, h5, h6, h7, h8, h9, h10, h11, h12, h13⟩ := has_txAttrs hE
-  rw [show s.active.isSome = (match s.active with | some _ => true | none => false) by cases s.active <;> rfl] at h8
   cases ha : s.active <;> rw [ha] at h8 <;>
   simp [Has, txAttrs, stopEnv, State.stopSending, State.emit, ha, set_get, Timer.stop, optPV, objPV, doneHist, h10, h12, h13] <;>
   simpa [objPV] using h8
@@ -316,6 +361,15 @@ theorem p_stop_sending_agrees (s : State) (ok : Bool) (env : Env) (hE : Has env 
     ∃ env', runFn (txMeths s) env Src.TransportLayerLogic_p_stop_sending = .ok (pnone, env') ∧
       Has env' (txAttrs (s.stopSending ok)) ∧ ∀ k, k ∉ txKeys → env' k = env k :=
   ⟨stopEnv s ok env, p_stop_sending_run s ok env hE hC hs, stopEnv_has s ok env hE, stopEnv_frame s ok env⟩
+
+/-- `SendRequest.complete(success)` itself: it stores the flag and signals the event.  The harness' subclass (harness/core.py,
+    `TaggedReq.complete`) records `(id, success)` just before calling it: that record is what the primitive
+    `self.active_send_request.complete` of `txMeths` appends to `#done`. -/
+theorem sendrequest_complete_calls (M : Meths) (env : Env) (v : PV) (h : env "success" = some v) :
+    envM M env Src.TransportLayerLogic_SendRequest_complete = M.proc "self.complete_event.set" [] (env.set "self.success" v) := by
+  cases hp : M.proc "self.complete_event.set" [] (env.set "self.success" v) <;>
+  simp [envM, runFn, Src.TransportLayerLogic_SendRequest_complete, execBlock, execStmt, eval, evalArgs, h,
+    evalBuiltin_none "self.complete_event.set" _ (by decide), hp]
 
 /-- an environment with exactly the transmit side of `s`, the constants and the argument (non-vacuity of the hypotheses) -/
 def txEnvOf (s : State) (extra : List (String × PV)) : Env := envOf (extra ++ txAttrs s ++ txConsts)
@@ -341,7 +395,7 @@ theorem txEnvOf_has (s : State) (ok : Bool) :
   write attributes) and `self.timer_rx_fc.start()` on that fresh object is the primitive that shows its two attributes:
   `timeout := cfg.tFc` (what the constructor stored) and `start_time := now` (`Timer.start`, `timer_start_none_agrees`). -/
 
-theorem truediv_1000 (x : Int) : evalBinop .truediv (pint x) (pint 1000) = .ok (.sc (.py (.float x 1000))) := rfl
+theorem TxH.truediv_1000 (x : Int) : evalBinop .truediv (pint x) (pint 1000) = .ok (.sc (.py (.float x 1000))) := rfl
 
 theorem txMeths_float (s : State) (i : Int) (env : Env) : (txMeths s).fn "float" [pint i] env = .ok (pint i) := rfl
 theorem txMeths_Timer (s : State) (n : Int) (d : Nat) (env : Env) :
@@ -354,6 +408,14 @@ theorem txMeths_fc_start (s : State) (env : Env) (h : env "self.timer_rx_fc" = s
          Except.ok ((env.set "self.timer_rx_fc.timeout" (pint s.cfg.tFc)).set "self.timer_rx_fc.start_time" (pint s.now))
        | _ => (Except.error (PErr.exc .AttributeError) : Except PErr Env)) = _
   rw [h]
+  rfl
+
+/-- the `start_time` that `self.timer_rx_fc.start()` shows is the one the interpreted `Timer.start` (no argument) leaves in
+    `self.start_time` of ANY timer object when the clock reads `s.now` -/
+theorem txMeths_fc_start_is_source (s : State) (env : Env) (h : env "self.timer_rx_fc" = some (.meth "Timer")) (t : Timer) :
+    ((txMeths s).proc "self.timer_rx_fc.start" [] env).map (· "self.timer_rx_fc.start_time") =
+      (envM (clockMeths s.now) (startEnv t pnone) Src.Timer_start).map (· "self.start_time") := by
+  rw [txMeths_fc_start s env h, timer_start_none_start_time _ t s.now (clockMeths_clockIs s.now)]
   rfl
 
 /-- the environment `_start_rx_fc_timer()` ends with -/
@@ -661,4 +723,379 @@ theorem stop_receiving_agrees (s : State) (env : Env) (hE : Has env (pubRxAttrs 
     simp only [pubRxKeys, List.mem_cons, List.not_mem_nil, or_false, not_or] at hk
     simp [pubRxStopEnv, set_get, hk]
 
+/-! ## D. `RateLimiter.allowed_bytes / reset / enable / disable` = `Limiter.allowedBytes / reset`, the `enabled` flag
+
+  `window_bit_max` (= `mean_bitrate * window_size_sec`) is a FLOAT in the implementation; the model carries `⌊window_bit_max⌋` as
+  `cfg.rlBitMax` (DESIGN 3.1).  The interpreter's arithmetic is on integers (`evalBinop` refuses a float operand), so the agreement
+  below is for an integer-valued `window_bit_max` / integer-valued factors, shown to the interpreter as `int`s; on a non-integral
+  float the interpretation stops with `unsupported` (`ratelimiter_allowed_bytes_float_outside_subset`,
+  `ratelimiter_reset_float_outside_subset`): that part of the tie stays with the trace correspondence.
+  The burst lists are shown in the model's units (times in integer nanoseconds). -/
+
+def limAttrs (l : Limiter) (bitMax : Nat) : List (String × PV) :=
+  [("self.enabled", pbool l.enabled),
+   ("self.bit_total", pint l.bitTotal),
+   ("self.window_bit_max", pint bitMax),
+   ("self.burst_time", .list (l.slots.map fun p => .py (.int p.1))),
+   ("self.burst_bitcount", .list (l.slots.map fun p => .py (.int p.2)))]
+
+def limKeys : List String :=
+  ["self.enabled", "self.bit_total", "self.window_bit_max", "self.burst_time", "self.burst_bitcount"]
+
+theorem limAttrs_keys (l : Limiter) (bitMax : Nat) : (limAttrs l bitMax).map (·.1) = limKeys := rfl
+
+theorem has_limAttrs {env : Env} {l : Limiter} {bitMax : Nat} (h : Has env (limAttrs l bitMax)) :
+    env "self.enabled" = some (pbool l.enabled) ∧ env "self.bit_total" = some (pint l.bitTotal) ∧
+    env "self.window_bit_max" = some (pint bitMax) ∧
+    env "self.burst_time" = some (.list (l.slots.map fun p => .py (.int p.1))) ∧
+    env "self.burst_bitcount" = some (.list (l.slots.map fun p => .py (.int p.2))) := by
+  simpa [Has, limAttrs] using h
+
+/-- `math.floor` of a rational is the floor; `float(x)` is numerically `x` (the value itself is kept); `self.can_be_enabled()` answers
+    `can`; `self.reset()` is the interpreted source of `RateLimiter.reset`. -/
+def limMeths (can : Bool) : Meths where
+  fn := fun name args _ =>
+    match name, args with
+    | "math.floor", [.sc (.py (.float n d))] => if d = 0 then .error .zeroDivision else .ok (pint (n / (d : Int)))
+    | "float", [.sc (.py v)] => if isNumber v then .ok (.sc (.py v)) else .error (.exc .TypeError)
+    | "self.can_be_enabled", [] => .ok (pbool can)
+    | n, _ => .error (.unsupported ("call " ++ n))
+  proc := fun name args env =>
+    match name, args with
+    | "self.reset", [] => envM noMeths env Src.RateLimiter_reset
+    | n, _ => .error (.unsupported ("call " ++ n))
+
+theorem limMeths_reset (can : Bool) (env : Env) :
+    (limMeths can).proc "self.reset" [] env = envM noMeths env Src.RateLimiter_reset := rfl
+
+theorem TxH.truediv_8 (x : Int) : evalBinop .truediv (pint x) (pint 8) = .ok (.sc (.py (.float x 8))) := rfl
+
+theorem limMeths_floor (can : Bool) (n : Int) (env : Env) :
+    (limMeths can).fn "math.floor" [.sc (.py (.float n 8))] env = .ok (pint (n / 8)) := rfl
+
+/-- **`allowed_bytes()` = `Limiter.allowedBytes`** for an integer-valued `window_bit_max` -/
+theorem ratelimiter_allowed_bytes_agrees (l : Limiter) (bitMax : Nat) (can : Bool) (env : Env) (hE : Has env (limAttrs l bitMax)) :
+    retM (limMeths can) env Src.RateLimiter_allowed_bytes = .ok (pint (l.allowedBytes bitMax)) := by
+  obtain ⟨h1, h2, h3, -, -⟩ := has_limAttrs hE
+  cases he : l.enabled
+  · simp [retM, runFn, Src.RateLimiter_allowed_bytes, execBlock, execStmt, eval, set_get, h1, he, Limiter.allowedBytes, noLimit]
+  · simp [retM, runFn, Src.RateLimiter_allowed_bytes, execBlock, execStmt, eval, evalArgs, set_get, h1, h2, h3, he,
+      builtin_max_pint, truediv_8, evalBuiltin_none "math.floor" _ (by decide), limMeths_floor, Limiter.allowedBytes]
+    split <;> omega
+
+/-- the call only binds the two locals -/
+theorem ratelimiter_allowed_bytes_frame (l : Limiter) (bitMax : Nat) (can : Bool) (env : Env) (hE : Has env (limAttrs l bitMax)) :
+    ∃ env', envM (limMeths can) env Src.RateLimiter_allowed_bytes = .ok env' ∧
+      ∀ k, k ∉ ["no_limit", "allowed_bits"] → env' k = env k := by
+  obtain ⟨h1, h2, h3, -, -⟩ := has_limAttrs hE
+  cases he : l.enabled
+  · refine ⟨env.set "no_limit" (pint 4294967295), ?_, ?_⟩
+    · simp [envM, runFn, Src.RateLimiter_allowed_bytes, execBlock, execStmt, eval, set_get, h1, he]
+    · intro k hk; simp only [List.mem_cons, List.not_mem_nil, or_false, not_or] at hk; simp [set_get, hk]
+  · refine ⟨(env.set "no_limit" (pint 4294967295)).set "allowed_bits"
+      (pint (if (0 : Int) > (bitMax : Int) - l.bitTotal then 0 else (bitMax : Int) - l.bitTotal)), ?_, ?_⟩
+    · simp [envM, runFn, Src.RateLimiter_allowed_bytes, execBlock, execStmt, eval, evalArgs, set_get, h1, h2, h3, he,
+        builtin_max_pint, truediv_8, evalBuiltin_none "math.floor" _ (by decide), limMeths_floor]
+    · intro k hk; simp only [List.mem_cons, List.not_mem_nil, or_false, not_or] at hk; simp [set_get, hk]
+
+/-- on a (non-integral) float `window_bit_max` of an enabled limiter the interpretation stops: `float - int` is outside the subset -/
+theorem ratelimiter_allowed_bytes_float_outside_subset (M : Meths) (env : Env) (n : Int) (d : Nat) (bt : Int)
+    (h1 : env "self.enabled" = some (pbool true)) (h2 : env "self.bit_total" = some (pint bt))
+    (h3 : env "self.window_bit_max" = some (.sc (.py (.float n d)))) :
+    runFn M env Src.RateLimiter_allowed_bytes = .error (.unsupported "binary operation on a non-integer") := by
+  have e : evalBinop .sub (.sc (.py (.float n d))) (pint bt) = .error (.unsupported "binary operation on a non-integer") := rfl
+  simp [runFn, Src.RateLimiter_allowed_bytes, execBlock, execStmt, eval, evalArgs, set_get, h1, h2, h3, e]
+
+/-- what `reset()` writes -/
+def limResetEnv (env : Env) (wbm : PV) : Env :=
+  (((env.set "self.burst_bitcount" (.list [])).set "self.burst_time" (.list [])).set "self.bit_total" (pint 0)).set
+    "self.window_bit_max" wbm
+
+/-- `reset()`, for ANY values of `mean_bitrate` / `window_size_sec`: the two lists are emptied, `bit_total = 0`, and
+    `window_bit_max` is their product as the interpreter computes it -/
+theorem ratelimiter_reset_run (M : Meths) (env : Env) (v1 v2 : PV) (h1 : env "self.mean_bitrate" = some v1)
+    (h2 : env "self.window_size_sec" = some v2) :
+    runFn M env Src.RateLimiter_reset =
+      (evalBinop .mul v1 v2).map (fun w => (pnone, limResetEnv env w)) := by
+  cases hm : evalBinop .mul v1 v2 <;>
+  simp [runFn, Src.RateLimiter_reset, execBlock, execStmt, eval, evalArgs, set_get, h1, h2, hm, limResetEnv]
+
+/-- **`reset()` = `Limiter.reset`** (integer-valued factors): the object afterwards shows the model's `l.reset`, with
+    `window_bit_max = mean_bitrate * window_size_sec` -/
+theorem ratelimiter_reset_agrees (l : Limiter) (bitMax b w : Nat) (M : Meths) (env : Env) (hE : Has env (limAttrs l bitMax))
+    (h1 : env "self.mean_bitrate" = some (pint b)) (h2 : env "self.window_size_sec" = some (pint w)) :
+    ∃ env', runFn M env Src.RateLimiter_reset = .ok (pnone, env') ∧ Has env' (limAttrs l.reset (b * w)) ∧
+      ∀ k, k ∉ limKeys → env' k = env k := by
+  obtain ⟨hen, -, -, -, -⟩ := has_limAttrs hE
+  refine ⟨limResetEnv env (pint ((b * w : Nat) : Int)),
+    by rw [ratelimiter_reset_run M env _ _ h1 h2, evalBinop_mul, Int.natCast_mul]; rfl, ?_, ?_⟩
+  · simp [Has, limAttrs, Limiter.reset, limResetEnv, set_get, hen]
+  · intro k hk
+    simp only [limKeys, List.mem_cons, List.not_mem_nil, or_false, not_or] at hk
+    simp [limResetEnv, set_get, hk]
+
+/-- with a float factor (the default `window_size_sec = 0.1`) `reset` is outside the subset -/
+theorem ratelimiter_reset_float_outside_subset (M : Meths) (env : Env) (v1 : PV) (n : Int) (d : Nat)
+    (h1 : env "self.mean_bitrate" = some v1) (h2 : env "self.window_size_sec" = some (.sc (.py (.float n d)))) :
+    runFn M env Src.RateLimiter_reset = .error (.unsupported "binary operation on a non-integer") := by
+  have e : evalBinop .mul v1 (.sc (.py (.float n d))) = .error (.unsupported "binary operation on a non-integer") := by
+    cases v1 <;> simp [evalBinop, asInt, Sc.isInt, PyVal.isInt]
+  rw [ratelimiter_reset_run M env _ _ h1 h2, e]; rfl
+
+/-- **`disable()`**: the flag of the model's limiter -/
+theorem ratelimiter_disable_agrees (l : Limiter) (bitMax : Nat) (M : Meths) (env : Env) (hE : Has env (limAttrs l bitMax)) :
+    ∃ env', runFn M env Src.RateLimiter_disable = .ok (pnone, env') ∧ Has env' (limAttrs { l with enabled := false } bitMax) ∧
+      ∀ k, k ≠ "self.enabled" → env' k = env k := by
+  obtain ⟨-, h2, h3, h4, h5⟩ := has_limAttrs hE
+  refine ⟨env.set "self.enabled" (pbool false), ?_, ?_, ?_⟩
+  · simp [runFn, Src.RateLimiter_disable, execBlock, execStmt, eval]
+  · simp [Has, limAttrs, set_get, h2, h3, h4, h5]
+  · intro k hk; simp [set_get, hk]
+
+/-- **`enable()`**: `ValueError` when `can_be_enabled()` is false; otherwise the flag is set and the limiter is reset
+    (`self.reset()` = the interpreted source of `reset`; integer-valued factors) -/
+theorem ratelimiter_enable_agrees (l : Limiter) (bitMax b w : Nat) (can : Bool) (env : Env) (hE : Has env (limAttrs l bitMax))
+    (h1 : env "self.mean_bitrate" = some (pint b)) (h2 : env "self.window_size_sec" = some (pint w)) :
+    if can then
+      ∃ env', runFn (limMeths can) env Src.RateLimiter_enable = .ok (pnone, env') ∧
+        Has env' (limAttrs { l.reset with enabled := true } (b * w)) ∧ ∀ k, k ∉ limKeys → env' k = env k
+    else runFn (limMeths can) env Src.RateLimiter_enable = .error (.exc .ValueError) := by
+  have hc : ∀ env, (limMeths can).fn "self.can_be_enabled" [] env = .ok (pbool can) := fun _ => rfl
+  have hf : ∀ (i : Int) env, (limMeths can).fn "float" [pint i] env = .ok (pint i) := fun _ _ => rfl
+  cases can
+  · simp [runFn, Src.RateLimiter_enable, execBlock, execStmt, eval, evalArgs,
+      evalBuiltin_none "self.can_be_enabled" _ (by decide), hc]
+  · obtain ⟨hen, hbt, hwb, hti, hbc⟩ := has_limAttrs hE
+    simp only [if_true]
+    -- `self.reset()` in the environment it is called in
+    have hp : (limMeths true).proc "self.reset" []
+        (((env.set "self.mean_bitrate" (pint b)).set "self.window_size_sec" (pint w)).set "self.enabled" (pbool true)) =
+        .ok (limResetEnv
+          (((env.set "self.mean_bitrate" (pint b)).set "self.window_size_sec" (pint w)).set "self.enabled" (pbool true))
+          (pint ((b * w : Nat) : Int))) := by
+      rw [limMeths_reset, envM, ratelimiter_reset_run noMeths _ (pint b) (pint w) (by simp [set_get]) (by simp [set_get]), evalBinop_mul,
+        Int.natCast_mul]
+      rfl
+    refine ⟨limResetEnv
+          (((env.set "self.mean_bitrate" (pint b)).set "self.window_size_sec" (pint w)).set "self.enabled" (pbool true))
+          (pint ((b * w : Nat) : Int)), ?_, ?_, ?_⟩
+    · simp [runFn, Src.RateLimiter_enable, execBlock, execStmt, eval, evalArgs, set_get, h1, h2, hc, hf,
+        evalBuiltin_none "self.can_be_enabled" _ (by decide), evalBuiltin_none "float" _ (by decide),
+        evalBuiltin_none "self.reset" _ (by decide), hp]
+    · simp [Has, limAttrs, Limiter.reset, limResetEnv, set_get]
+    · -- `mean_bitrate` / `window_size_sec` are re-assigned their own (numerically equal) values
+      intro k hk
+      simp only [limKeys, List.mem_cons, List.not_mem_nil, or_false, not_or] at hk
+      simp only [limResetEnv, set_get, hk, if_false]
+      by_cases a1 : k = "self.window_size_sec"
+      · rw [if_pos a1, a1, h2]
+      · rw [if_neg a1]
+        by_cases a2 : k = "self.mean_bitrate"
+        · rw [if_pos a2, a2, h1]
+        · rw [if_neg a2]
+
+/-! ## F. `_make_flow_control` = `makeFlowControl`, `_trigger_error` = `State.error`
+
+  Callees of `_make_flow_control`, given from the model; each is tied to its own source by another leaf:
+  * `PDU.craft_flow_control_data(fs, bs, stmin)` is `fcData` (`craft_flow_control_data_agrees`, MiscFc.lean);
+  * `self.address.get_tx_arbitration_id()` (default `address_type = Physical`) is `Half.txId .physical`
+    (`get_tx_arbitration_id_agrees`, AddressFns.lean);
+  * `self.address.get_tx_payload_prefix()` returns the `_tx_payload_prefix` stored by the constructor, `Half.txPrefix`
+    (`Address_init_constructs`, AddressInit.lean);
+  * `self._make_tx_msg(id, data)` is `makeTxMsg` (padding: `_pad_message_data`, DLC: `_get_dlc`, MiscFd.lean).  A `CanMessage` is not a
+    value of the embedding: the theorem holds for EVERY way `enc` of showing the model's result (`none` = `ValueError`) to the
+    interpreter. -/
+
+def fcMeths (c : Cfg) (a : Addr) (enc : Option CanMsg → Except PErr PV) : Meths where
+  fn := fun name args _ =>
+    match name, args with
+    | "PDU.craft_flow_control_data", [.sc (.py (.int s)), .sc (.py (.int b)), .sc (.py (.int st))] =>
+      .ok (.bytes (fcData s.toNat b.toNat st.toNat))
+    | "self.address.get_tx_arbitration_id", [] => .ok (pint (a.tx.txId .physical))
+    | "self.address.get_tx_payload_prefix", [] => .ok (.bytes a.tx.txPrefix)
+    | "self._make_tx_msg", [.sc (.py (.int id)), .bytes d] => enc (makeTxMsg c a id.toNat d)
+    | n, _ => .error (.unsupported ("call " ++ n))
+  proc := fun n _ _ => .error (.unsupported ("call " ++ n))
+
+/-- arguments of `_make_flow_control(flow_status, blocksize=None, stmin=None)` and the two parameters it reads -/
+def fcArgAttrs (c : Cfg) (st : Nat) (ob os : Option Nat) : List (String × PV) :=
+  [("flow_status", pint st), ("blocksize", optPV ob), ("stmin", optPV os),
+   ("self.params.blocksize", pint c.blocksize), ("self.params.stmin", pint c.stmin)]
+
+theorem fcMeths_craft (c : Cfg) (a : Addr) (enc : Option CanMsg → Except PErr PV) (s b st : Nat) (env : Env) :
+    (fcMeths c a enc).fn "PDU.craft_flow_control_data" [pint s, pint b, pint st] env = .ok (.bytes (fcData s b st)) := rfl
+theorem fcMeths_id (c : Cfg) (a : Addr) (enc : Option CanMsg → Except PErr PV) (env : Env) :
+    (fcMeths c a enc).fn "self.address.get_tx_arbitration_id" [] env = .ok (pint (a.tx.txId .physical)) := rfl
+theorem fcMeths_prefix (c : Cfg) (a : Addr) (enc : Option CanMsg → Except PErr PV) (env : Env) :
+    (fcMeths c a enc).fn "self.address.get_tx_payload_prefix" [] env = .ok (.bytes a.tx.txPrefix) := rfl
+theorem fcMeths_mk (c : Cfg) (a : Addr) (enc : Option CanMsg → Except PErr PV) (id : Nat) (d : Bytes) (env : Env) :
+    (fcMeths c a enc).fn "self._make_tx_msg" [pint id, .bytes d] env = enc (makeTxMsg c a id d) := rfl
+
+theorem TxH.evalBinop_add_bytes (x y : Bytes) : evalBinop .add (.bytes x) (.bytes y) = .ok (.bytes (x ++ y)) := rfl
+
+/-- **`_make_flow_control(flow_status, blocksize, stmin)`**: `_make_tx_msg(tx id, prefix + fcData(status, blocksize or the parameter,
+    stmin or the parameter))` -/
+theorem p_make_flow_control_general (c : Cfg) (a : Addr) (enc : Option CanMsg → Except PErr PV) (st : Nat) (ob os : Option Nat)
+    (env : Env) (hE : Has env (fcArgAttrs c st ob os)) :
+    retM (fcMeths c a enc) env Src.TransportLayerLogic_p_make_flow_control =
+      enc (makeTxMsg c a (a.tx.txId .physical) (a.tx.txPrefix ++ fcData st (ob.getD c.blocksize) (os.getD c.stmin))) := by
+  have ⟨h1, h2, h3, h4, h5⟩ : env "flow_status" = some (pint st) ∧ env "blocksize" = some (optPV ob) ∧
+      env "stmin" = some (optPV os) ∧ env "self.params.blocksize" = some (pint c.blocksize) ∧
+      env "self.params.stmin" = some (pint c.stmin) := by simpa [Has, fcArgAttrs] using hE
+  cases ob <;> cases os <;>
+  simp [retM, runFn, Src.TransportLayerLogic_p_make_flow_control, execBlock, execStmt, eval, evalArgs, set_get, h1, h2, h3, h4, h5,
+    optPV, evalBuiltin_none "PDU.craft_flow_control_data" _ (by decide),
+    evalBuiltin_none "self.address.get_tx_arbitration_id" _ (by decide),
+    evalBuiltin_none "self.address.get_tx_payload_prefix" _ (by decide), evalBuiltin_none "self._make_tx_msg" _ (by decide),
+    fcMeths_craft, fcMeths_id, fcMeths_prefix, fcMeths_mk, evalBinop_add_bytes] <;>
+  (generalize enc (makeTxMsg _ _ _ _) = r; cases r <;> rfl)
+
+/-- **`_make_flow_control(flow_status)` = `makeFlowControl`** (the only form the layer uses: `blocksize` / `stmin` from the parameters) -/
+theorem p_make_flow_control_agrees (c : Cfg) (a : Addr) (enc : Option CanMsg → Except PErr PV) (st : Nat) (env : Env)
+    (hE : Has env (fcArgAttrs c st none none)) :
+    retM (fcMeths c a enc) env Src.TransportLayerLogic_p_make_flow_control = enc (makeFlowControl c a st) :=
+  p_make_flow_control_general c a enc st none none env hE
+
+/-- the first two entries of `fcMeths` ARE the interpreted sources of the callees (on the callee's own object / arguments) -/
+theorem fcMeths_callees_are_sources (c : Cfg) (a : Addr) (enc : Option CanMsg → Except PErr PV) (s b st : Nat) (env : Env) :
+    (fcMeths c a enc).fn "PDU.craft_flow_control_data" [pint s, pint b, pint st] env =
+      retOf (fcEnv s b st) Src.PDU_craft_flow_control_data ∧
+    (fcMeths c a enc).fn "self.address.get_tx_arbitration_id" [] env =
+      retOf (tatEnv .physical (cachedEnv a.tx (halfEnv a.tx))) Src.Address_get_tx_arbitration_id := by
+  rw [craft_flow_control_data_agrees, get_tx_arbitration_id_agrees]
+  exact ⟨rfl, rfl⟩
+
+/-! ### `_trigger_error(error)`
+
+  Source: `if self.error_handler is not None: if hasattr(self.error_handler, '__call__') and isinstance(error, IsoTpError):
+  self.error_handler(error)` (the logger calls are dropped by the dumper).  The model's `State.error` records the error
+  unconditionally: it models the layer AS THE HARNESS BUILDS IT, with a callable handler installed.  The theorem below is for all
+  three guards; `p_trigger_error_agrees` is the harness' case. -/
+
+def isoErrSc (e : Err) : Sc := .enum "IsoTpError" e.name
+
+/-- the errors handed to the handler so far, oldest first, each as the two scalars `time, class` -/
+def errHist : List Ev → List Sc
+  | [] => []
+  | .err t e :: rest => errHist rest ++ [.py (.int t), isoErrSc e]
+  | _ :: rest => errHist rest
+
+/-- `hasattr(handler, '__call__')` answers `callable`, `isinstance(error, IsoTpError)` answers `isErr`; calling the handler appends
+    `(now, error)` to the history `#errors` -/
+def handlerMeths (now : Nat) (callable isErr : Bool) : Meths where
+  fn := fun name args _ =>
+    match name, args with
+    | "hasattr", [_, .str "__call__"] => .ok (pbool callable)
+    | "isinstance_IsoTpError", [_] => .ok (pbool isErr)
+    | n, _ => .error (.unsupported ("call " ++ n))
+  proc := fun name args env =>
+    match name, args with
+    | "self.error_handler", [.sc e] =>
+      (match env "#errors" with
+       | some (.list h) => .ok (env.set "#errors" (.list (h ++ [.py (.int now), e])))
+       | _ => .error (.exc .AttributeError))
+    | n, _ => .error (.unsupported ("call " ++ n))
+
+theorem handlerMeths_call (now : Nat) (callable isErr : Bool) (e : Sc) (env : Env) (h : List Sc)
+    (hh : env "#errors" = some (.list h)) :
+    (handlerMeths now callable isErr).proc "self.error_handler" [.sc e] env =
+      .ok (env.set "#errors" (.list (h ++ [.py (.int now), e]))) := by
+  show (match env "#errors" with
+       | some (PV.list h) => Except.ok (env.set "#errors" (PV.list (h ++ [Sc.py (.int now), e])))
+       | _ => (Except.error (PErr.exc .AttributeError) : Except PErr Env)) = _
+  rw [hh]
+
+/-- **`_trigger_error`, all guards**: the handler is called (once, with the error) exactly when one is installed, it is callable and
+    the error is an `IsoTpError`; nothing else happens -/
+theorem p_trigger_error_general (now : Nat) (installed callable isErr : Bool) (e : Sc) (h : List Sc) (env : Env)
+    (h1 : env "self.error_handler" = some (objPV "handler" installed)) (h2 : env "error" = some (.sc e))
+    (h3 : env "#errors" = some (.list h)) :
+    runFn (handlerMeths now callable isErr) env Src.TransportLayerLogic_p_trigger_error =
+      .ok (pnone, if installed && callable && isErr then env.set "#errors" (.list (h ++ [.py (.int now), e])) else env) := by
+  have f1 : ∀ v env, (handlerMeths now callable isErr).fn "hasattr" [v, .str "__call__"] env = .ok (pbool callable) :=
+    fun _ _ => rfl
+  have f2 : ∀ v env, (handlerMeths now callable isErr).fn "isinstance_IsoTpError" [v] env = .ok (pbool isErr) :=
+    fun _ _ => rfl
+  have hc := handlerMeths_call now callable isErr e env h h3
+  cases installed <;> cases callable <;> cases isErr <;>
+  simp [runFn, Src.TransportLayerLogic_p_trigger_error, execBlock, execStmt, eval, evalArgs, h1, h2, objPV, f1, f2, hc,
+    evalBuiltin_none "hasattr" _ (by decide), evalBuiltin_none "isinstance_IsoTpError" _ (by decide),
+    evalBuiltin_none "self.error_handler" _ (by decide)]
+
+/-- **`_trigger_error(e)` = `State.error s e`** for the layer the harness builds (callable handler installed, `e` an `IsoTpError`):
+    the history of errors afterwards is the one of the model's `s.error e`; nothing else is written -/
+theorem p_trigger_error_agrees (s : State) (e : Err) (env : Env)
+    (h1 : env "self.error_handler" = some (.meth "handler")) (h2 : env "error" = some (.sc (isoErrSc e)))
+    (h3 : env "#errors" = some (.list (errHist s.log))) :
+    ∃ env', runFn (handlerMeths s.now true true) env Src.TransportLayerLogic_p_trigger_error = .ok (pnone, env') ∧
+      env' "#errors" = some (.list (errHist (s.error e).log)) ∧ ∀ k, k ≠ "#errors" → env' k = env k := by
+  refine ⟨_, p_trigger_error_general s.now true true true (isoErrSc e) _ env h1 h2 h3, ?_, ?_⟩
+  · simp [set_get, State.error, State.emit, errHist]
+  · intro k hk; simp [set_get, hk]
+
+/-! ## Non-vacuity of the `Has` hypotheses (for EVERY model object there is an environment that shows it) -/
+
+theorem has_envOf_keys (bs : List (String × PV)) (keys : List String) (hk : bs.map (·.1) = keys) (hn : keys.Nodup) :
+    Has (envOf bs) bs := has_envOf bs (hk ▸ hn)
+
+example (s : State) (ms : Nat) :
+    ∃ env : Env, Has env (txAttrs s) ∧ Has env txConsts ∧ env "self.params.rx_flowcontrol_timeout" = some (pint ms) := by
+  have h := has_envOf_keys (txAttrs s ++ txConsts ++ [("self.params.rx_flowcontrol_timeout", pint ms)])
+    (txKeys ++ txConsts.map (·.1) ++ ["self.params.rx_flowcontrol_timeout"]) rfl (by decide)
+  exact ⟨_, h.append_left.append_left, h.append_left.append_right,
+    h.append_right ("self.params.rx_flowcontrol_timeout", pint ms) (by simp)⟩
+example (s : State) : ∃ env : Env, Has env (pubRxAttrs s) ∧ Has env pubRxConsts := by
+  have h := has_envOf_keys (pubRxAttrs s ++ pubRxConsts) (pubRxKeys ++ pubRxConsts.map (·.1)) rfl (by decide)
+  exact ⟨_, h.append_left, h.append_right⟩
+example (l : Limiter) (bitMax b w : Nat) :
+    ∃ env : Env, Has env (limAttrs l bitMax) ∧ env "self.mean_bitrate" = some (pint b) ∧
+      env "self.window_size_sec" = some (pint w) := by
+  have h := has_envOf_keys (limAttrs l bitMax ++ [("self.mean_bitrate", pint b), ("self.window_size_sec", pint w)])
+    (limKeys ++ ["self.mean_bitrate", "self.window_size_sec"]) rfl (by decide)
+  exact ⟨_, h.append_left, h.append_right ("self.mean_bitrate", pint b) (by simp),
+    h.append_right ("self.window_size_sec", pint w) (by simp)⟩
+example (r : Req) : ∃ env : Env, Has env (reqAttrs r) :=
+  ⟨_, has_envOf_keys (reqAttrs r) ["self._size", "self._consumed", "self._depleted"] rfl (by decide)⟩
+example (c : Cfg) (st : Nat) (ob os : Option Nat) : ∃ env : Env, Has env (fcArgAttrs c st ob os) :=
+  ⟨_, has_envOf_keys (fcArgAttrs c st ob os) ["flow_status", "blocksize", "stmin", "self.params.blocksize", "self.params.stmin"]
+    rfl (by decide)⟩
+example (s : State) (e : Err) :
+    ∃ env : Env, env "self.error_handler" = some (.meth "handler") ∧ env "error" = some (.sc (isoErrSc e)) ∧
+      env "#errors" = some (.list (errHist s.log)) :=
+  ⟨envOf [("self.error_handler", .meth "handler"), ("error", .sc (isoErrSc e)), ("#errors", .list (errHist s.log))],
+    rfl, rfl, rfl⟩
+
 end Isotp.PyAgree
+
+#print axioms Isotp.PyAgree.p_stop_sending_run
+#print axioms Isotp.PyAgree.p_stop_sending_agrees
+#print axioms Isotp.PyAgree.sendrequest_complete_calls
+#print axioms Isotp.PyAgree.txMeths_timer_stop_is_source
+#print axioms Isotp.PyAgree.txMeths_fc_start_is_source
+#print axioms Isotp.PyAgree.p_start_rx_fc_timer_run
+#print axioms Isotp.PyAgree.p_start_rx_fc_timer_agrees
+#print axioms Isotp.PyAgree.available_agrees
+#print axioms Isotp.PyAgree.transmitting_agrees
+#print axioms Isotp.PyAgree.is_tx_throttled_agrees
+#print axioms Isotp.PyAgree.fbg_total_length_agrees
+#print axioms Isotp.PyAgree.fbg_remaining_size_int
+#print axioms Isotp.PyAgree.fbg_remaining_size_agrees
+#print axioms Isotp.PyAgree.fbg_remaining_size_needs_le
+#print axioms Isotp.PyAgree.fbg_depleted_agrees
+#print axioms Isotp.PyAgree.stop_sending_calls
+#print axioms Isotp.PyAgree.stop_sending_agrees
+#print axioms Isotp.PyAgree.stop_receiving_calls
+#print axioms Isotp.PyAgree.stop_receiving_agrees
+#print axioms Isotp.PyAgree.ratelimiter_allowed_bytes_agrees
+#print axioms Isotp.PyAgree.ratelimiter_allowed_bytes_frame
+#print axioms Isotp.PyAgree.ratelimiter_allowed_bytes_float_outside_subset
+#print axioms Isotp.PyAgree.ratelimiter_reset_run
+#print axioms Isotp.PyAgree.ratelimiter_reset_agrees
+#print axioms Isotp.PyAgree.ratelimiter_reset_float_outside_subset
+#print axioms Isotp.PyAgree.ratelimiter_disable_agrees
+#print axioms Isotp.PyAgree.ratelimiter_enable_agrees
+#print axioms Isotp.PyAgree.p_make_flow_control_general
+#print axioms Isotp.PyAgree.p_make_flow_control_agrees
+#print axioms Isotp.PyAgree.fcMeths_callees_are_sources
+#print axioms Isotp.PyAgree.p_trigger_error_general
+#print axioms Isotp.PyAgree.p_trigger_error_agrees
